@@ -32,7 +32,7 @@ T = 'chainables.tree'
 
 
 def run(ctx: Ctx):
-  for r in (r1, r2, r3, r4, r5, r6, r7, r8):
+  for r in (r1, r2, r3, r4, r5, r6, r7, r8, r9):
     ctx.guard(r)
 
 
@@ -475,10 +475,68 @@ def r8(ctx: Ctx):
   ctx.floor(rule, 1, n)
 
 
+def r9(ctx: Ctx):
+  rule = 'R-C18-9'
+  ctx.rule(rule, '"setting a path ... every other path reads as before": a reserved key means the'
+           ' same on an EMPTY tree as on an existing container. _set_by_path gives the reserved'
+           ' sentinels their meaning (SELF: the node itself, SKIP: write nothing) but hands an'
+           ' empty tree to _default_tree, which knows plain keys only. So every sentinel that'
+           ' _set_by_path tests anywhere is tested on every path BEFORE the delegation to'
+           ' _default_tree (or by _default_tree itself). Otherwise the sentinel becomes a'
+           ' literal dict key on a fresh tree: an output routed to Key.SKIP shows up in the'
+           ' record as {Reserved(\'SKIP\'): value} when it is the first key')
+  repo = ctx.repo
+  fi = repo.func(T, 'TreeMapView._set_by_path')
+  dt = repo.func(T, '_default_tree')
+  g = cfgm.cfg_of(fi.node)
+
+  def sentinels_in(node):
+    out = set()
+    for c in ast.walk(node):
+      if isinstance(c, ast.Call) and unparse(c.func) == '_is_key' and len(c.args) == 2:
+        out.add(unparse(c.args[1]))
+    return out
+
+  handled = sentinels_in(fi.node)
+  if len(handled) < 2:
+    raise AnalysisError(f'{rule}: _set_by_path tests {sorted(handled)} only (SELF and SKIP expected)')
+  deleg = [nd for nd in g.nodes if nd.kind in ('stmt', 'cond') and any(
+      isinstance(c, ast.Call) and unparse(c.func) == '_default_tree' for c in cfgm.node_exprs(nd))]
+  if not deleg:
+    raise AnalysisError(f'{rule}: _set_by_path no longer delegates an empty tree to _default_tree')
+  in_builder = sentinels_in(dt.node)
+  n = 0
+  for sname in sorted(handled):
+    n += 1
+    if sname in in_builder:
+      ctx.ok(rule, dt, f'_default_tree handles {sname} itself', dt.node)
+      continue
+    tests = lambda nd, sname=sname: any(isinstance(c, ast.Call) and unparse(c.func) == '_is_key' and len(c.args) == 2
+                                        and unparse(c.args[1]) == sname for c in cfgm.node_exprs(nd))
+    w = None
+    for d in deleg:
+      w = w or g.dominates(tests, d, cfgm.only_normal)
+    if w is None:
+      ctx.ok(rule, fi, f'{sname} is tested before an empty tree is handed to _default_tree', deleg[0].ast)
+    else:
+      ctx.fail(rule, fi, f'_set_by_path: {sname} is handled before the fresh-tree delegation',
+               f'_set_by_path gives {sname} its meaning only on the path for existing containers; an empty tree'
+               f' reaches `{deleg[0].text()[:40]}` first, and _default_tree stores the reserved key as an ordinary'
+               ' dict key: the same key path behaves differently depending on whether a container exists yet'
+               ' (an output routed to Key.SKIP as FIRST output key appears in the record)', node=deleg[0].ast)
+  ctx.floor(rule, 2, n)
+
+
 from mlmverif.selfcheck import B, OK  # noqa: E402
 
 _F = 'chainables/tree.py'
 VARIANTS = [
+    B('revert-skip-on-empty-tree', 'chainables/tree.py',
+      '    # Nothing is written for a skipped key, also when there is no tree yet.\n    if _is_key(key_path[0], _SKIP):\n      return tree\n',
+      '', 'R-C18-9'),
+    OK('skip-and-self-tested-together', 'chainables/tree.py',
+       '    # Nothing is written for a skipped key, also when there is no tree yet.\n    if _is_key(key_path[0], _SKIP):\n      return tree\n',
+       '    skipped = _is_key(key_path[0], _SKIP)\n    if skipped:\n      return tree\n'),
     B('fresh-branch-int-key-as-position', 'chainables/tree.py',
       '    case (Index(key), *rest_keys):', '    case (int(key), *rest_keys):', 'R-C18-8'),
     OK('fresh-branch-index-by-guard', 'chainables/tree.py',
